@@ -10,6 +10,7 @@ import (
 	"sort"
 	"sync"
 	"testing"
+	"testing/synctest"
 	"time"
 
 	"github.com/prometheus/client_golang/prometheus"
@@ -35,83 +36,99 @@ func TestDrv_C20(t *testing.T) {
 		for _, n := range sizes {
 			for _, concurrent := range []bool{false, true} {
 				cases++
-				pm := prom.NewMetrics()
-				reg := prometheus.NewRegistry()
-				must(pm.Register(reg))
-				tr.Emit("Reset", KV{"n": n, "concurrent": concurrent})
-				rs := make([]vegeta.Result, n)
-				for i := range rs {
-					lat := time.Duration(r.Int63n(int64(20 * time.Second)))
-					switch r.Intn(4) {
-					case 0: // exactly on, just below, just above a bucket bound
-						lat = bounds[r.Intn(len(bounds))] + time.Duration(r.Intn(3)-1)
-					case 1:
-						lat = time.Duration(r.Intn(1000))
+				synctest.Test(t, func(t *testing.T) { // virtual time: the series are created and live inside the bubble
+					pm := prom.NewMetrics()
+					reg := prometheus.NewRegistry()
+					must(pm.Register(reg))
+					tr.Emit("Reset", KV{"n": n, "concurrent": concurrent})
+					rs := make([]vegeta.Result, n)
+					for i := range rs {
+						lat := time.Duration(r.Int63n(int64(20 * time.Second)))
+						switch r.Intn(4) {
+						case 0: // exactly on, just below, just above a bucket bound
+							lat = bounds[r.Intn(len(bounds))] + time.Duration(r.Intn(3)-1)
+						case 1:
+							lat = time.Duration(r.Intn(1000))
+						}
+						e := []string{"", "", "connection refused", "context deadline exceeded", "EOF"}[r.Intn(5)]
+						rs[i] = vegeta.Result{Method: []string{"GET", "POST"}[r.Intn(2)], URL: []string{"http://a/", "http://b/x?y=1"}[r.Intn(2)],
+							Code: []uint16{200, 404, 0, 500}[r.Intn(4)], BytesIn: uint64(r.Intn(1 << 20)), BytesOut: uint64(r.Intn(1 << 10)), Latency: lat, Error: e}
 					}
-					e := []string{"", "", "connection refused", "context deadline exceeded", "EOF"}[r.Intn(5)]
-					rs[i] = vegeta.Result{Method: []string{"GET", "POST"}[r.Intn(2)], URL: []string{"http://a/", "http://b/x?y=1"}[r.Intn(2)],
-						Code: []uint16{200, 404, 0, 500}[r.Intn(4)], BytesIn: uint64(r.Intn(1 << 20)), BytesOut: uint64(r.Intn(1 << 10)), Latency: lat, Error: e}
-				}
-				observe := func(x *vegeta.Result) {
-					pm.Observe(x)
-					tr.Emit("Observe", KV{"method": x.Method, "url": x.URL, "code": int(x.Code), "err": x.Error,
-						"bin": Big(x.BytesIn), "bout": Big(x.BytesOut), "lat": Big(uint64(x.Latency))})
-				}
-				if concurrent {
-					var wg sync.WaitGroup
-					for g := 0; g < 16; g++ {
-						wg.Add(1)
-						go func(g int) {
-							defer wg.Done()
-							for i := g; i < n; i += 16 {
+					observe := func(x *vegeta.Result) {
+						pm.Observe(x)
+						tr.Emit("Observe", KV{"method": x.Method, "url": x.URL, "code": int(x.Code), "err": x.Error,
+							"bin": Big(x.BytesIn), "bout": Big(x.BytesOut), "lat": Big(uint64(x.Latency))})
+					}
+					// the results arrive in three phases that lie more than an hour of (virtual) time apart, as in a soak test;
+					// the registry is gathered after each phase and once more after a further idle hour
+					phase := func(lo, hi int) {
+						if concurrent {
+							var wg sync.WaitGroup
+							for g := 0; g < 16; g++ {
+								wg.Add(1)
+								go func(g int) {
+									defer wg.Done()
+									for i := lo + g; i < hi; i += 16 {
+										observe(&rs[i])
+									}
+								}(g)
+							}
+							wg.Wait()
+						} else {
+							for i := lo; i < hi; i++ {
 								observe(&rs[i])
 							}
-						}(g)
-					}
-					wg.Wait()
-				} else {
-					for i := range rs {
-						observe(&rs[i])
-					}
-				}
-				obs += n
-				fams, err := reg.Gather()
-				if err != nil {
-					tr.Emit("Panic", KV{"what": "Gather", "value": err.Error()})
-					continue
-				}
-				counters, hists := []KV{}, []KV{}
-				for _, f := range fams {
-					for _, m := range f.GetMetric() {
-						lb := map[string]string{}
-						for _, p := range m.GetLabel() {
-							lb[p.GetName()] = p.GetValue()
 						}
-						code := lb["status"]
-						if c := m.GetCounter(); c != nil {
-							v := c.GetValue()
-							val := []int{9999, 9999, 9999, 9999, 9999, 9999}
-							if v >= 0 && v == math.Trunc(v) && v < 1e18 {
-								val = Big(uint64(v))
+					}
+					obs += n
+					gather := func() {
+						fams, err := reg.Gather()
+						if err != nil {
+							tr.Emit("Panic", KV{"what": "Gather", "value": err.Error()})
+							return
+						}
+						counters, hists := []KV{}, []KV{}
+						for _, f := range fams {
+							for _, m := range f.GetMetric() {
+								lb := map[string]string{}
+								for _, p := range m.GetLabel() {
+									lb[p.GetName()] = p.GetValue()
+								}
+								code := lb["status"]
+								if c := m.GetCounter(); c != nil {
+									v := c.GetValue()
+									val := []int{9999, 9999, 9999, 9999, 9999, 9999}
+									if v >= 0 && v == math.Trunc(v) && v < 1e18 {
+										val = Big(uint64(v))
+									}
+									counters = append(counters, KV{"name": f.GetName(), "method": lb["method"], "url": lb["url"], "status": atoi(code),
+										"message": lb["message"], "value": val})
+								}
+								if h := m.GetHistogram(); h != nil {
+									var bs []uint64
+									for _, b := range h.GetBucket() {
+										bs = append(bs, b.GetCumulativeCount())
+									}
+									hists = append(hists, KV{"method": lb["method"], "url": lb["url"], "status": atoi(code), "count": h.GetSampleCount(),
+										"sum": Big(uint64(math.Round(h.GetSampleSum() * 1e9))), "buckets": bs, "name": f.GetName()})
+								}
 							}
-							counters = append(counters, KV{"name": f.GetName(), "method": lb["method"], "url": lb["url"], "status": atoi(code),
-								"message": lb["message"], "value": val})
 						}
-						if h := m.GetHistogram(); h != nil {
-							var bs []uint64
-							for _, b := range h.GetBucket() {
-								bs = append(bs, b.GetCumulativeCount())
-							}
-							hists = append(hists, KV{"method": lb["method"], "url": lb["url"], "status": atoi(code), "count": h.GetSampleCount(),
-								"sum": Big(uint64(math.Round(h.GetSampleSum() * 1e9))), "buckets": bs, "name": f.GetName()})
+						sort.Slice(counters, func(i, j int) bool { return counters[i]["name"].(string) < counters[j]["name"].(string) })
+						tr.Emit("Gather", KV{"counters": counters, "hists": hists})
+						if len(samples) < 2 && n == 2 {
+							samples = append(samples, KV{"results": rs, "counters": counters})
 						}
 					}
-				}
-				sort.Slice(counters, func(i, j int) bool { return counters[i]["name"].(string) < counters[j]["name"].(string) })
-				tr.Emit("Gather", KV{"counters": counters, "hists": hists})
-				if len(samples) < 2 && n == 2 {
-					samples = append(samples, KV{"results": rs, "counters": counters})
-				}
+					for ph := 0; ph < 3; ph++ {
+						phase(ph*n/3, (ph+1)*n/3)
+						gather()
+						time.Sleep(35 * time.Minute)
+					}
+					time.Sleep(61 * time.Minute)
+					synctest.Wait()
+					gather()
+				})
 			}
 		}
 	}
